@@ -32,7 +32,7 @@ void j_sqrt_acc(Ctx & c, int64_t x, int64_t, int64_t)
   }
 void j_sqrt_neg(Ctx & c, int64_t x, int64_t, int64_t)
   {
-  if(x >= 0) return;
+  if(x >= 0 || x == INT64_MIN) return;
   c.stratum("sqrt-negative"); if(x > -8 || x <= RAW_LOWEST + 4 || model_isnan(x)) c.nontrivial(hash3(131, x, 0));
   for(size_t ci = 0; ci < g_cfgs.size(); ++ci)
     for(int k = 0; k < 3; ++k)
@@ -88,6 +88,17 @@ void c13_run(Ctx & c)
       }
     }
   }
+  // hardest arguments for any square-root algorithm: x*2^16 = k^2 - 1 (just below a perfect square). k^2 = 1 mod 2^16 forces
+  // k = 2^15*i +- 1, i.e. x = 2^14*i^2 +- i; all of them below 2^47 are swept (i <= 92681), with their neighbours
+  for(int64_t i = 1 + c.shard; i <= 92681; i += c.nshards)
+    for(int sgn = -1; sgn <= 1; sgn += 2)
+      {
+      i128 x = ((i128)1 << 14) * i * i + sgn * i;
+      if(x <= 0 || x >= ((i128)1 << 47) - 1) continue;
+      c.run_check(ACC, (int64_t)x); c.run_check(ACC, (int64_t)x + 1); c.run_check(ACC, (int64_t)x - 1);
+      c.run_check(MONO, (int64_t)x, (int64_t)x + 1); c.run_check(MONO, (int64_t)x - 1, (int64_t)x);
+      c.stratum("sqrt-just-below-perfect-square");
+      }
   // perfect squares n = 256*m
   const int64_t MMAX = 11863283; // floor(sqrt(2^47 - 1))
   int64_t step = c.thorough ? 1 : 23;
@@ -104,9 +115,10 @@ Property P_C13 = { "C13", c13_init, c13_run,
     { "sqrt_neg", j_sqrt_neg, "NaN for x < 0; a = raw" },
     { "sqrt_mono", j_sqrt_mono, "x <= y => sqrt(x) <= sqrt(y); a = x, b = y" },
     { "sqrt_square", j_sqrt_square, "sqrt(n*n) == n for n = 256*a raw" } },
-  { "sqrt-x>=2^30", "sqrt-zero", "sqrt-x<2^30", "sqrt-negative", "sqrt-monotone-pair", "sqrt-perfect-square" },
+  { "sqrt-x>=2^30", "sqrt-zero", "sqrt-x<2^30", "sqrt-negative", "sqrt-monotone-pair", "sqrt-perfect-square", "sqrt-just-below-perfect-square" },
   "x within 4 raw of a power of two, x >= 2^46 raw (abacus intermediate frontier), x < 4, every perfect square, negative arguments next to 0 / lowest(); distinct by x",
-  { "every raw x in [0,2^21)", "every 23rd perfect square n=256m, m <= 11863283" }, { "every raw x in [0,2^26)", "every representable perfect square n=256m, m <= 11863283" } };
+  { "every raw x in [0,2^21)", "every 23rd perfect square n=256m, m <= 11863283", "every x with x*2^16 = k^2-1 below 2^47 (185,362 values) and its neighbours" },
+  { "every raw x in [0,2^26)", "every representable perfect square n=256m, m <= 11863283", "every x with x*2^16 = k^2-1 below 2^47 (185,362 values) and its neighbours" } };
 Registrar R_C13(&P_C13);
 
 // ============================================================================================ C14
@@ -114,16 +126,16 @@ Fn HYPOT;
 void j_hypot(Ctx & c, int64_t a, int64_t b, int64_t)
   {
   const int64_t LIM = 1ll << 47;
-  if(llabs(a) >= LIM || llabs(b) >= LIM) return;
-  int64_t hi = std::max(llabs(a), llabs(b)), lo = std::min(llabs(a), llabs(b));
+  if(sabs(a) >= LIM || sabs(b) >= LIM) return;
+  int64_t hi = std::max(sabs(a), sabs(b)), lo = std::min(sabs(a), sabs(b));
   bool small = hi < (1ll << 30);
   const char * branch = hi == 0 ? "zero" : (hi >= (1ll << 30) ? "shift-right" : (lo < 65536 ? "shift-left" : "direct"));
   c.stratum(std::string("hypot-") .append(branch).c_str());
-  if(llabs(hi - (1ll << 30)) < 1024 || llabs(lo - 65536) < 1024 || hi >= (1ll << 45) || (hi >= (1ll << 29) && lo < 65536)) c.nontrivial(hash3(14, a, b));
+  if(sabs(hi - (1ll << 30)) < 1024 || sabs(lo - 65536) < 1024 || hi >= (1ll << 45) || (hi >= (1ll << 29) && lo < 65536)) c.nontrivial(hash3(14, a, b));
   i128 S = (i128)a * a + (i128)b * b;
   for(size_t ci = 0; ci < g_cfgs.size(); ++ci)
     {
-    CALLG(r, HYPOT, a, b) CALLG(rs, HYPOT, b, a) CALLG(ra, HYPOT, llabs(a), llabs(b))
+    CALLG(r, HYPOT, a, b) CALLG(rs, HYPOT, b, a) CALLG(ra, HYPOT, sabs(a), sabs(b))
     std::string cls = std::string("hypot[") + (g_cfgs[ci].sqrt_algo == 1 ? "abacus" : "std") + "]/" + branch;
     if(rs.v != r.v || ra.v != r.v) c.violation(cls + "/not-symmetric", (int)ci, a, b, 0, i2s(r.v) + " vs " + i2s(rs.v) + "," + i2s(ra.v), "equal");
     if(model_isnan(r.v) || r.v < 0) { c.violation(cls + "/nan-or-negative", (int)ci, a, b, 0, i2s(r.v), "finite >= 0"); continue; }
@@ -147,7 +159,7 @@ void c14_run(Ctx & c)
   {
   const Check & H = P_C14.checks[0];
   uint64_t idx = 0;
-  std::vector<int64_t> L; for(int64_t x : lattice()) if(llabs(x) < (1ll << 47)) L.push_back(x);
+  std::vector<int64_t> L; for(int64_t x : lattice()) if(sabs(x) < (1ll << 47)) L.push_back(x);
   for(int64_t a : L) for(int64_t b : L) if(c.mine(idx++)) c.run_check(H, a, b);
   uint64_t n = c.share(c.n(800000, 100000000));
   for(uint64_t i = 0; i < n; ++i)
@@ -163,7 +175,7 @@ void c14_run(Ctx & c)
       default: a = c.rng.logu(31); b = c.rng.logu(31);
       }
     if(c.rng.next() & 1) std::swap(a, b);
-    if(llabs(a) >= (1ll << 47) || llabs(b) >= (1ll << 47)) continue;
+    if(sabs(a) >= (1ll << 47) || sabs(b) >= (1ll << 47)) continue;
     c.run_check(H, a, b);
     }
   }
@@ -224,6 +236,7 @@ void j_angle_aprox(Ctx & c, int64_t d, int64_t, int64_t)
   }
 void j_sqrt_aprox(Ctx & c, int64_t x, int64_t, int64_t)
   {
+  if(x == INT64_MIN) return;
   c.stratum(x < 0 ? "sqrt_aprox-negative" : (x == 0 ? "sqrt_aprox-zero" : "sqrt_aprox-positive"));
   if(x <= 0 || x < 64 || x >= (1ll << 36)) c.nontrivial(hash3(192, x, 0));
   if(x >= (1ll << 37)) return;
@@ -239,9 +252,9 @@ void j_sqrt_aprox(Ctx & c, int64_t x, int64_t, int64_t)
   }
 void j_atan_index(Ctx & c, int64_t x, int64_t, int64_t)
   {
-  if(llabs(x) >= (1ll << 47)) return;
+  if(sabs(x) >= (1ll << 47)) return;
   c.stratum(x < 0 ? "atan_index-negative" : "atan_index-non-negative");
-  if(llabs(x) > (1ll << 22) || llabs(x) < 1024) c.nontrivial(hash3(193, x, 0));
+  if(sabs(x) > (1ll << 22) || sabs(x) < 1024) c.nontrivial(hash3(193, x, 0));
   long double t = atanl(raw2ld(x)) * 128.0L / PI_L;
   for(size_t ci = 0; ci < g_cfgs.size(); ++ci)
     {
@@ -284,7 +297,7 @@ void c19_run(Ctx & c)
     {
     if(i == 128) continue;
     int64_t t = c.call(TAN_TAB.f[0], i, 0).v;
-    for(int64_t d = -40; d <= 40; ++d) if(llabs(t + d) < (1ll << 47)) c.run_check(AI, t + d);
+    for(int64_t d = -40; d <= 40; ++d) if(sabs(t + d) < (1ll << 47)) c.run_check(AI, t + d);
     }
   n = c.share(c.n(300000, 30000000));
   for(uint64_t i = 0; i < n; ++i) c.run_check(AI, c.rng.logu(47));
